@@ -36,8 +36,29 @@ class TLCResult:
 _J = re.compile(r'^<<"J", "([A-Za-z0-9_]+)", (".*")>>$')
 
 
+_JM = re.compile(r'^<<\s*"J",\s*"([A-Za-z0-9_]+)",\s*(".*")\s*>>$', re.S)
+
+
 def parse_tlc_output(text, res):
-    for line in text.splitlines():
+    lines = text.splitlines()
+    n = 0
+    while n < len(lines):
+        line = lines[n]
+        n += 1
+        if line.startswith('<< "J",'):
+            # TLC's pretty printer spread the tuple over several lines (it does so for PrintT in ASSUME
+            # under -simulate): collect up to the closing >>
+            buf = [line]
+            while not buf[-1].rstrip().endswith(">>") and n < len(lines):
+                buf.append(lines[n])
+                n += 1
+            m = _JM.match(" ".join(x.strip() for x in buf))
+            if m:
+                try:
+                    res.msgs.setdefault(m.group(1), []).append(json.loads(json.loads(m.group(2))))
+                except Exception as e:
+                    res.error = "bad J block: %s (%s)" % (buf[0][:200], e)
+            continue
         if line.startswith('<<"J", '):
             m = _J.match(line)
             if m:
